@@ -1,5 +1,6 @@
 //! In-child guards for C20 (the child is `chk_persist --worker C20`):
-//!  * a watchdog thread that ends the process when one load runs longer than `LOAD_DEADLINE_MS`
+//!  * a watchdog thread that ends the process when one load burns more than `LOAD_CPU_LIMIT_MS`
+//!    of CPU time (or `LOAD_WALL_BACKSTOP_MS` of wall time)
 //!    or when the live heap exceeds `LIVE_LIMIT` (exit code 140+code in both cases);
 //!  * a SIGABRT handler that turns an abort (Rust's stack-overflow guard, alloc error, explicit
 //!    abort) into exit code 100+code,
@@ -10,20 +11,35 @@
 use std::sync::atomic::{AtomicBool, AtomicU32, AtomicU64, Ordering};
 use std::time::{SystemTime, UNIX_EPOCH};
 
-pub const LOAD_DEADLINE_MS: u64 = 15_000;
+/// CPU time one load may consume (process CPU clock: robust against a starved machine, where a
+/// wall-clock deadline misfires); a load that blocks without burning CPU is ended by the wall
+/// backstop (and, beyond it, by vcore's per-case timeout).
+pub const LOAD_CPU_LIMIT_MS: u64 = 10_000;
+pub const LOAD_WALL_BACKSTOP_MS: u64 = 90_000;
 pub const LIVE_LIMIT: usize = 6 << 30;
 
 static CODE: AtomicU32 = AtomicU32::new(0);
 /// start of the load in progress (ms since epoch), 0 = none
 static LOAD_START: AtomicU64 = AtomicU64::new(0);
+/// process CPU time (ms) at the start of the load in progress
+static LOAD_START_CPU: AtomicU64 = AtomicU64::new(0);
 static INSTALLED: AtomicBool = AtomicBool::new(false);
 
 fn now_ms() -> u64 {
     SystemTime::now().duration_since(UNIX_EPOCH).map(|d| d.as_millis() as u64).unwrap_or(0)
 }
 
+fn cpu_ms() -> u64 {
+    let mut ts = libc::timespec { tv_sec: 0, tv_nsec: 0 };
+    unsafe {
+        libc::clock_gettime(libc::CLOCK_PROCESS_CPUTIME_ID, &mut ts);
+    }
+    ts.tv_sec as u64 * 1000 + ts.tv_nsec as u64 / 1_000_000
+}
+
 pub fn begin_load(code: u32) {
     CODE.store(code, Ordering::Relaxed);
+    LOAD_START_CPU.store(cpu_ms(), Ordering::Relaxed);
     LOAD_START.store(now_ms(), Ordering::Relaxed);
 }
 pub fn end_load() {
@@ -52,8 +68,11 @@ pub fn install() {
             std::thread::sleep(std::time::Duration::from_millis(50));
             let code = CODE.load(Ordering::Relaxed) as i32;
             let st = LOAD_START.load(Ordering::Relaxed);
-            if st != 0 && now_ms().saturating_sub(st) > LOAD_DEADLINE_MS {
-                unsafe { libc::_exit(140 + code) }
+            if st != 0 && (cpu_ms().saturating_sub(LOAD_START_CPU.load(Ordering::Relaxed)) > LOAD_CPU_LIMIT_MS || now_ms().saturating_sub(st) > LOAD_WALL_BACKSTOP_MS) {
+                // (a load that ended between the two reads shows st == 0 next time round)
+                if LOAD_START.load(Ordering::Relaxed) == st {
+                    unsafe { libc::_exit(140 + code) }
+                }
             }
             // same exit code as the deadline: a load that does not end shows up as one or the
             // other depending on the machine's speed
@@ -68,7 +87,7 @@ pub fn install() {
 pub fn explain_exit(code: i32) -> String {
     let (what, c) = match code {
         100..=139 => ("abort (SIGABRT: stack overflow guard, allocation failure or explicit abort)", code - 100),
-        140..=179 => ("watchdog (one load ran longer than 15 s or its live heap exceeded 6 GiB)", code - 140),
+        140..=179 => ("watchdog (one load used more than 10 s of CPU time or its live heap exceeded 6 GiB)", code - 140),
         _ => return format!("exit code {}", code),
     };
     let fmt = ["binary", "compressed", "json", "sql"][(c / 4).clamp(0, 3) as usize];
